@@ -36,7 +36,7 @@ CHECKS = {
             "2^-20 of t or u, tuning parameters over 8 decades, margins below the assumed error rate) and their values "
             "checked against [0,u], [0,1/mu_j] and eta_j > mu_j with mu_j from an independent loop; the sign of every "
             "history entry and of every one-step extension prefix+[v], v in {0,u,t,u/2}, is observed.",
-            "trusted: numpy; 'mu_j < u' means mu_j < u(1-1e-6); fixed_bet lambda <= 1/u; optimal_comparison with u > 1",
+            "trusted: numpy; 'mu_j < u' means mu_j < u(1-1e-6); fixed_bet lambda <= 1/u (the documented range); u in {0.75, 0.9375} and narrow integer dtypes included for every estimator/bet",
             "DESIGN.md section 4, C13"),
     "C05": ("history monitor: bit-exact prefix / truncation / tail-replacement relations over recorded calls on one configured object",
             "Exploration by runtime monitoring: for each (configuration, sample, cut k, replacement tail) the real test is "
